@@ -25,12 +25,15 @@ DEV = consts(["transferFromShares", "crossChain", "delegation"], ["off", "stakin
 # quick: every method, every chain x call kind x naming; switch: off / either address / one method of each precompile
 # (for the other methods these two settings are "another method disabled"); allowances: none or one grant of 1, 2, 3
 QUICK = consts(ALL, ["off", "staking", "crosschain", "transferFromShares", "crossChain"], [1, 2, 3], 1)
-# thorough: every method as switch setting, two successive grants (overwrites, grants to two spenders)
-THOROUGH = consts(ALL, ["off", "staking", "crosschain"] + ALL, [1, 2, 3], 2)
+# thorough: every method also as switch setting (one grant); and, for the share methods, two successive grants
+# (overwrites, grants to two spenders, grants by two owners)
+THOROUGH = consts(ALL, ["off", "staking", "crosschain"] + ALL, [1, 2, 3], 1)
+GRANTS2 = consts(["transferFromShares", "transferShares", "approveShares", "delegation"], ["off"], [1, 3], 2)
 
 MC = [dict(name="dev", tiers=["dev"], consts=DEV), dict(name="quick", tiers=["quick"], consts=QUICK),
-      dict(name="thorough", tiers=["thorough"], consts=THOROUGH, timeout=2400)]
-GEN = [cfg("dev", ["dev"], DEV, shards=4), cfg("quick", ["quick"], QUICK), cfg("thorough", ["thorough"], THOROUGH, shards=16, timeout=2400)]
+      dict(name="thorough", tiers=["thorough"], consts=THOROUGH, timeout=2400), dict(name="grants2", tiers=["thorough"], consts=GRANTS2, timeout=2400)]
+GEN = [cfg("dev", ["dev"], DEV, shards=4), cfg("quick", ["quick"], QUICK), cfg("thorough", ["thorough"], THOROUGH, shards=16, timeout=2400),
+       cfg("grants2", ["thorough"], GRANTS2, shards=16, timeout=2400)]
 
 ASSUMPTIONS = [
     "one validator (0) carries the share portfolios, validator 1 is the redelegation target; every method moves 2 units (crossChain fee 1, parked deposits 3)",
